@@ -1,5 +1,5 @@
 /-
-  Declarative meaning of buffer histories (C05): a finite map from live objects to values.
+  Declarative meaning of buffer histories (C05): a map from live objects to values.
   A value is a list of units, each either known or unspecified (`none`): `allocate(n)` gives
   `n` unspecified units, a moved-from object holds *some* valid value (all we know is that it
   is one: `anyValue`).
@@ -15,11 +15,13 @@ inductive Val where
   | anyValue                          -- valid, contents unspecified (moved-from)
   deriving Repr, DecidableEq
 
-abbrev Store := List (Nat × Val)      -- live objects, at most one entry per id
+/-- live objects and their values (`none` = not alive) -/
+abbrev Store := Nat → Option Val
 
-def Store.get (s : Store) (o : Nat) : Option Val := (s.find? (·.1 == o)).map (·.2)
-def Store.set (s : Store) (o : Nat) (v : Val) : Store := (o, v) :: s.filter (·.1 != o)
-def Store.erase (s : Store) (o : Nat) : Store := s.filter (·.1 != o)
+def Store.empty : Store := fun _ => none
+def Store.get (s : Store) (o : Nat) : Option Val := s o
+def Store.set (s : Store) (o : Nat) (v : Val) : Store := fun x => if x = o then some v else s x
+def Store.erase (s : Store) (o : Nat) : Store := fun x => if x = o then none else s x
 
 def writeVal (v : Val) (at_ : Nat) (us : List Nat) : Val :=
   match v with
@@ -41,5 +43,10 @@ def step (s : Store) : Op → Store
   | .allocate o n => s.set o (.known (List.replicate n none))
   | .allocateFill o n v => s.set o (.known (List.replicate n (some v)))
   | .writeData o at_ us => match s.get o with | some v => s.set o (writeVal v at_ us) | none => s
+
+/-- a reported `(size, elements)` pair agrees with a specified value -/
+def Matches : Val → Nat × List Nat → Prop
+  | .anyValue, _ => True
+  | .known xs, (n, us) => xs.length = n ∧ us.length = n ∧ ∀ (i x : Nat), xs[i]? = some (some x) → us[i]? = some x
 
 end StVerif.Spec.Store
